@@ -155,6 +155,22 @@ fn gen_ctor(rng: &mut Rng) -> Value {
     if rng.chance(50) {
         s["fill_slot"] = json!(true);
     }
+    if rng.chance(35) {
+        // other slots of the table that also look like a way to the root (a second, say read-only,
+        // alias of the level-4 table; a copy of the candidate slot; an unrelated present entry):
+        // the verdict depends on the slot the address goes through and on nothing else
+        let n = rng.range(1, 3);
+        let mut a = vec![];
+        for _ in 0..n {
+            let k = match rng.below(3) {
+                0 => rng.below(r.max(1)),
+                1 => (r + 1 + rng.below(511 - r.min(510))) % 512,
+                _ => rng.below(512),
+            };
+            a.push(json!([k, rng.below(3), rng.below(8)]));
+        }
+        s["aliases"] = Value::Array(a);
+    }
     if rng.chance(20) {
         // the address space is switched (from this root) in the same function, right before the
         // constructor is called
@@ -452,6 +468,19 @@ pub fn run(rp: &Replay, st: &mut Stats) -> Option<Violation> {
                         continue;
                     }
                     if recursive {
+                        for a in s["aliases"].as_array().cloned().unwrap_or_default() {
+                            let (k, kind, fl) = (a[0].as_u64().unwrap_or(0) % 512, a[1].as_u64().unwrap_or(0), a[2].as_u64().unwrap_or(0));
+                            if k == r || k == pidx[0] {
+                                continue;
+                            }
+                            let v = match kind {
+                                0 => (cr3 & ADDR) | PRESENT | (fl & 6) | (fl & 1) << 63,
+                                1 => slot,
+                                _ => (pframe ^ 0x5000) & ADDR | PRESENT | (fl & 6),
+                            };
+                            maps.put(addr, k, v);
+                            st.count("ctor_table_with_other_root_like_slots");
+                        }
                         maps.put(addr, r, slot);
                     } else {
                         // whichever slot a sloppy check looks at, it finds an active-looking entry —
